@@ -127,6 +127,7 @@ fn string_cfg(ds: &[&str]) -> GenCfg {
         idents: vec![],
         sync_only: true,
         dup_names: false,
+        mixed_case_overlap: false,
     }
 }
 
